@@ -448,6 +448,22 @@ func (in *vwInst) canon(reply []byte, err error, key string) string {
 		if len(cs.WitnessSigs) != 1 {
 			in.out.Fail(key, fmt.Sprintf("%d witness signatures", len(cs.WitnessSigs)))
 		}
+		// the cosignature is over tls.Marshal of exactly the STH it accompanies: the model's `cosigInput` must give the same
+		// bytes, and the witness signature must verify over them
+		if in.w.canSign {
+			signedBytes, merr := tls.Marshal(cs.SignedTreeHead)
+			if merr != nil {
+				in.out.Fail(key, "tls.Marshal of the returned STH: "+merr.Error())
+			} else {
+				if verr := in.w.wVerify.SigVerifier.VerifySignature(signedBytes, tls.DigitallySigned(cs.WitnessSigs[0])); verr != nil {
+					in.out.Fail(key, "cosig_verifies: the witness signature does not verify over tls.Marshal of the STH it accompanies")
+				}
+				in.out.T(fmt.Sprintf("cosin %d %d %d %s %d %d %s %s", cs.Version, cs.TreeSize, cs.Timestamp, verifkit.Hex(cs.SHA256RootHash[:]),
+					cs.TreeHeadSignature.Algorithm.Hash, cs.TreeHeadSignature.Algorithm.Signature, verifkit.Hex(cs.TreeHeadSignature.Signature), verifkit.Hex(cs.LogID[:])),
+					verifkit.Hex(signedBytes))
+				in.out.Count("class:cosig-input")
+			}
+		}
 		sb, _ := tls.Marshal(tls.DigitallySigned(cs.TreeHeadSignature))
 		return fmt.Sprintf("cosig %d %d %s %s %s", cs.TreeSize, cs.Timestamp, verifkit.Hex(cs.SHA256RootHash[:]), verifkit.Hex(cs.LogID[:]),
 			in.w.tok(in.w.sigTok, "s", sb))
